@@ -18,7 +18,7 @@ impl Ctx {
 }
 
 pub fn cfg(batch: u8, fault: u8, level: usize, n_clients: usize) -> RigCfg {
-    RigCfg { batch, fault, seed: unhex(DEFAULT_SEED), client_stats: false, level, n_clients }
+    RigCfg { batch, fault, seed: unhex(DEFAULT_SEED), client_stats: false, level, n_clients, hc: false }
 }
 
 pub fn new_section(ctx: &mut Ctx, c: RigCfg) -> Option<Rig> {
@@ -468,6 +468,57 @@ pub fn drive_cfgleak(ctx: &mut Ctx, rng: &mut Rng, workdir: &str) {
     }
 }
 
+/// C15 (health check, in-process): connection schedules of Health.tla replayed through the hook tracer, then seeded bursts
+pub fn drive_health(ctx: &mut Ctx, rng: &mut Rng, path: &str, thorough: bool) -> u64 {
+    let mut schedules: Vec<(usize, Vec<usize>)> = vec![];
+    if !path.is_empty() {
+        if let Ok(f) = std::fs::File::open(path) {
+            for line in std::io::BufReader::new(f).lines() {
+                if let Ok(c) = serde_json::from_str::<Value>(&line.unwrap()) {
+                    schedules.push((c["pre"].as_u64().unwrap_or(1) as usize, c["during"].as_array().map(|a| a.iter().map(|x| x.as_u64().unwrap_or(0) as usize).collect()).unwrap_or_default()));
+                }
+            }
+        }
+    }
+    let replayed = schedules.len() as u64;
+    for _ in 0..(if thorough { 40 } else { 12 }) {
+        let pre = rng.range(1, 70) as usize;
+        let during: Vec<usize> = (0..rng.below(6)).map(|_| rng.below(pre as u64 + 1) as usize).collect();
+        schedules.push((pre, during));
+    }
+    let mut c = cfg(8, 0, 0, 4);
+    c.hc = true;
+    let mut rig = match new_section(ctx, c) { Some(r) => r, None => return 0 };
+    for (pre, during) in schedules {
+        rig.hc_connect(pre);
+        let mut total = pre;
+        for acc in during {
+            total += 1;
+            // the connection arrives after `acc` accepts of the current readiness event (acc = 0: right after poll returned)
+            if acc == 0 { rig.plan_hc_connect_at("evt", 1, 1); } else { rig.plan_hc_connect_at("hc_accept", acc, 1); }
+        }
+        // time service continues: two requests ride along
+        let s1 = valid_request(rng, Proto::Google, 1024, None);
+        let s2 = valid_request(rng, Proto::Ietf, 1024, None);
+        let _ = rig.drain();
+        let t0 = rig::now();
+        rig.send(0, &s1); rig.send(1, &s2);
+        let panic = rig.pump_until_idle();
+        let t1 = rig::now();
+        let (conns, ok200) = rig.hc_collect();
+        let round: Vec<Sent> = vec![(0usize, s1), (1usize, s2)].into_iter().enumerate().map(|(i, (s, b))| Sent { id: i + 1, sock: s, features: proto::request_features(&b, &rig.srv), nonce: proto::request_nonce(&b), bytes: b, t_sent_ns: t0 }).collect();
+        ctx.emit(json!({"ev": "round"}));
+        for s in &round { ctx.emit(json!({"ev": "arrive", "id": s.id, "sock": s.sock, "f": s.features})); }
+        ctx.emit(json!({"ev": "pumped", "panic": panic.is_some(), "panic_msg": panic.unwrap_or_default(), "wedged": false, "unconsumed": 0}));
+        let _ = rig.take_hooks();
+        for (sock, bytes) in rig.drain() { let e = rig.reply_event(sock, &bytes, &round, t0, t1, false); ctx.emit(e); ctx.replies += 1; }
+        ctx.emit(json!({"ev": "round_end"}));
+        ctx.emit(json!({"ev": "hc_round", "conns": total, "connected": conns, "ok200": ok200}));
+        ctx.rounds += 1;
+    }
+    replayed
+}
+
 /// C17 wiring: traffic mixes with both recorder kinds
 pub fn drive_stats(ctx: &mut Ctx, rng: &mut Rng, thorough: bool) {
     for (k, client_stats) in [false, true, false, true].iter().enumerate() {
@@ -536,6 +587,7 @@ pub fn record(driver: &str, seed: u64, tier: &str, out_path: &str, inp: &str) {
             "stats" => drive_stats(&mut ctx, &mut rng, thorough),
             "mixed" => drive_mixed(&mut ctx, &mut rng),
             "slowdrain" => drive_slowdrain(&mut ctx, &mut rng, thorough),
+            "health" => replayed += drive_health(&mut ctx, &mut rng, inp, thorough),
             "cfgleak" => drive_cfgleak(&mut ctx, &mut rng, &format!("{}.cfgleak", out_path)),
             other => { eprintln!("unknown driver {}", other); std::process::exit(2); }
         }
